@@ -52,6 +52,8 @@ type Frame struct {
 	topProps []string
 	atExit   bool
 	callStates map[string]*State
+	callArgs   map[string][]Binding // arguments of the last call of each callee with a contract
+	callRes    map[string][]Binding // its results
 	lockCount  map[string]int
 	autoLevel  map[string]int // Houdini state of automatic loop-frame candidates: 0 = since loop start, 1 = entry cells, 2 = off
 }
